@@ -415,6 +415,9 @@ func (tic *TermInCommittee) validatePreprepare(ppm *interfaces.PreprepareMessage
 
 	header := ppm.Content().SignedHeader()
 	sender := ppm.Content().Sender()
+	if header.MessageType() != protocol.LEAN_HELIX_PREPREPARE {
+		return fmt.Errorf("signed header is of type %v and not PREPREPARE", header.MessageType())
+	}
 	if err := tic.keyManager.VerifyConsensusMessage(header.BlockHeight(), header.Raw(), sender); err != nil {
 		tic.logger.ConsensusTrace("failed to verify preprepare - maybe a committee mismatch?", err, log.Stringable("sender", sender))
 
@@ -464,6 +467,10 @@ func (tic *TermInCommittee) HandlePrepare(pm *interfaces.PrepareMessage) {
 
 	if err := tic.keyManager.VerifyConsensusMessage(header.BlockHeight(), header.Raw(), sender); err != nil {
 		tic.logger.Info("LHMSG RECEIVED PREPARE IGNORE - verification failed for Prepare block-height=%v view=%d block-hash=%s err=%v", header.BlockHeight(), header.View(), header.BlockHash(), err)
+		return
+	}
+	if header.MessageType() != protocol.LEAN_HELIX_PREPARE {
+		tic.logger.Info("LHMSG RECEIVED PREPARE IGNORE - signed header is of type %v", header.MessageType())
 		return
 	}
 	if !proofsvalidator.IsInMembers(tic.committeeMembers, sender.MemberId()) {
@@ -552,6 +559,10 @@ func (tic *TermInCommittee) HandleCommit(cm *interfaces.CommitMessage) {
 
 	if err := tic.keyManager.VerifyConsensusMessage(header.BlockHeight(), header.Raw(), sender); err != nil {
 		tic.logger.Info("LHMSG RECEIVED COMMIT IGNORE - verification failed for Commit block-height=%d view=%d block-hash=%s err=%v", header.BlockHeight(), header.View(), header.BlockHash(), err)
+		return
+	}
+	if header.MessageType() != protocol.LEAN_HELIX_COMMIT {
+		tic.logger.Info("LHMSG RECEIVED COMMIT IGNORE - signed header is of type %v", header.MessageType())
 		return
 	}
 	if !proofsvalidator.IsInMembers(tic.committeeMembers, sender.MemberId()) {
@@ -670,6 +681,10 @@ func (tic *TermInCommittee) isViewChangeValid(expectedLeaderFromNewView primitiv
 	vcmView := header.View()
 	preparedProof := header.PreparedProof()
 
+	if header.MessageType() != protocol.LEAN_HELIX_VIEW_CHANGE {
+		return errors.Errorf("signed header is of type %v and not VIEW_CHANGE", header.MessageType())
+	}
+
 	if err := tic.keyManager.VerifyConsensusMessage(header.BlockHeight(), header.Raw(), sender); err != nil {
 		return errors.Wrapf(err, "keyManager.VerifyConsensusMessage failed")
 	}
@@ -709,6 +724,9 @@ func (tic *TermInCommittee) validateViewChangeVotes(targetBlockHeight primitives
 			return fmt.Errorf("confirmation of memberId %s has view %d which is different than targetView %d ",
 				senderMemberIdStr, confirmationView, targetView)
 		}
+		if confirmation.SignedHeader().MessageType() != protocol.LEAN_HELIX_VIEW_CHANGE {
+			return fmt.Errorf("confirmation of memberId %s is of type %v and not VIEW_CHANGE", senderMemberIdStr, confirmation.SignedHeader().MessageType())
+		}
 		if set[senderMemberIdStr] {
 			return fmt.Errorf("memberId %s appears in more than one confirmation", senderMemberIdStr)
 		}
@@ -730,6 +748,11 @@ func (tic *TermInCommittee) HandleNewView(nvm *interfaces.NewViewMessage) {
 
 	if tic.State.View() > nvmHeader.View() {
 		tic.logger.Info("LHMSG RECEIVED NEW_VIEW IGNORE - current view %d is higher than message view %d", tic.State.View(), nvmHeader.View())
+		return
+	}
+
+	if nvmHeader.MessageType() != protocol.LEAN_HELIX_NEW_VIEW {
+		tic.logger.Info("LHMSG RECEIVED NEW_VIEW IGNORE - signed header is of type %v", nvmHeader.MessageType())
 		return
 	}
 
